@@ -170,6 +170,20 @@ for i in range(n):
                             dict(choose=75, undo=6, redo=4, goto=4, save=8, load=0, fresh=0, read=2, bad=1, loadbad=0))
     h.update(json.dumps(c.get("story"), sort_keys=False, default=str).encode())
     h.update(json.dumps(c.get("real"), sort_keys=False, default=str).encode())
+# stdlib game objects in the variables: their save data must not depend on the hash seed either
+import io, contextlib
+from bardic.runtime.engine import BardEngine
+SRC = ("from bardic.stdlib.relationship import Relationship\nfrom bardic.stdlib.inventory import Inventory\nfrom bardic.stdlib.economy import Wallet, Shop\n"
+       ":: Start\n~ alex = Relationship('Alex', 50, 50, 0)\n~ bag = Inventory(20)\n~ w = Wallet(9)\n~ shop = Shop([{'name': 'Gem', 'value': 3, 'weight': 1}])\nhi\n+ [talk] -> Talk\n\n"
+       ":: Talk\n~ alex.discuss_topic('past')\n~ alex.discuss_topic('family')\n~ alex.discuss_topic('work')\n~ alex.discuss_topic('dreams')\n~ alex.discuss_topic('the war')\n"
+       "~ bag.add({'name': 'Gem', 'weight': 1, 'value': 3})\n~ ok = shop.buy('Gem', w, bag)\ntalked {ok}\n+ [again] -> Talk\n")
+with contextlib.redirect_stdout(io.StringIO()):
+    e = BardEngine(corr_play.compile_source(SRC))
+    e.choose(0)
+    e.choose(0)
+    doc = e.save_state()
+doc = {k: v for k, v in doc.items() if k not in ("timestamp", "save_id", "story_id")}
+h.update(json.dumps(doc, sort_keys=False, default=str).encode())
 print(h.hexdigest())
 '''
 
